@@ -34,14 +34,23 @@ class _Conv(object):
         self.radicands = []   # z3 terms that must be >= 0
         self.timeout_ms = timeout_ms
         self.cache = {}
+        self.hcache = {}
+        self.keep = []
 
     def holds(self, cond):
+        k = cond.get_id()
+        if k in self.hcache:
+            return self.hcache[k]
+        from .state import cone_of_influence
         s = z3.Solver()
         s.set('timeout', self.timeout_ms)
-        for a in self.assumptions:
+        for a in cone_of_influence(self.assumptions, cond):
             s.add(a)
         s.add(z3.Not(cond))
-        return s.check() == z3.unsat
+        r = s.check() == z3.unsat
+        self.hcache[k] = r
+        self.keep.append(cond)
+        return r
 
     def opaque(self, t):
         k = t.get_id()
